@@ -28,11 +28,12 @@ import (
 // oracle (on the implementation's answer, independent of the model):
 //   resolution-exceeded   a returned block has resolution > maxres
 //   no-overlap            a returned block does not overlap [mint, maxt]
-//   dup-finer-block-spans-coarser   a block is returned twice and it strictly spans a coarser allowed block (F15)
+//   dup-finer-block-spans-coarser   a block is returned twice and it strictly spans a coarser allowed block
+//                         (F15; repaired in /repo by 5d7491d6a)
 //   duplicate-block       any other repeated block
 //   uncovered-instant     an instant of [mint,maxt] inside an added allowed block is in no returned block
 //                         (only evaluated without block matchers)
-//   panic-no-allowed-resolution     getFor panics and maxres is below every resolution (maxres < 0)
+//   panic-no-allowed-resolution     getFor panics and maxres is below every resolution (maxres < 0; repaired by 22ba7b303)
 //   panic                 any other panic
 
 func init() {
